@@ -36,6 +36,10 @@ TResult ==
                                        ELSE GrpcHeaderOK(sc.secs, Cur.chars, Cur.present, Cur.slack_ms)
                                     /\ Cur.count = IF Cur.present THEN 1 ELSE 0
        [] sc.op = "nodeadline_e2e" -> ~Cur.present /\ Cur.count = 0
+       \* C12: both ends see the procedure and stream type of THIS call, whatever the Request went through before
+       [] sc.op = "spec_reuse" -> /\ Cur.ok
+                                  /\ Cur.cproc = "/verif.v1.B/Second" /\ Cur.cisclient /\ Cur.cstype = 0
+                                  /\ Cur.hproc = Cur.cproc /\ ~Cur.hisclient /\ Cur.hstype = Cur.cstype
        [] OTHER -> FALSE
 
 Normal == TReset \/ (TResult /\ Consume /\ UNCHANGED failed)
